@@ -474,7 +474,7 @@ def _kind_side(expr, env, items=frozenset(OP_NAMES)):
     return (k, side)
 
 
-def _conflict_pairs(fn):
+def _conflict_pairs(fn, mod=None, seed_env=None, depth=0):
     # the item being placed: a parameter with an operation-like name, or the variable of a loop over a parameter
     params = {a.arg for a in fn.args.args + fn.args.kwonlyargs}
     items = set(OP_NAMES & params)
@@ -482,7 +482,7 @@ def _conflict_pairs(fn):
         if isinstance(n, ast.For) and isinstance(n.target, ast.Name) and isinstance(n.iter, ast.Name) and n.iter.id in params:
             items.add(n.target.id)
     items = frozenset(items)
-    env = {}
+    env = dict(seed_env or {})
     for n in ast.walk(fn):
         if isinstance(n, ast.Assign) and len(n.targets) == 1 and isinstance(n.targets[0], ast.Name):
             ks = _kind_side(n.value, {}, items)
@@ -500,6 +500,23 @@ def _conflict_pairs(fn):
             if ks and ks[1] == 'op':
                 env[acc] = (ks[0], 'mo')
     pairs = set()
+    # a conflict test extracted into a private module-level helper: the helper is read with its parameters bound to the kinds of the arguments
+    if mod is not None and depth < 2:
+        for n in ast.walk(fn):
+            if isinstance(n, ast.Call) and isinstance(n.func, ast.Name) and isinstance(mod.defs.get(n.func.id), ast.FunctionDef) and mod.defs[n.func.id] is not fn:
+                g = mod.defs[n.func.id]
+                gp = [a.arg for a in g.args.posonlyargs + g.args.args]
+                bound = {}
+                for i_, a_ in enumerate(n.args):
+                    ks_ = _kind_side(a_, env, items)
+                    if ks_ and i_ < len(gp):
+                        bound[gp[i_]] = ks_
+                for k_ in n.keywords:
+                    ks_ = _kind_side(k_.value, env, items)
+                    if ks_ and k_.arg:
+                        bound[k_.arg] = ks_
+                if bound:
+                    pairs |= _conflict_pairs(g, mod, bound, depth + 1)
     for n in ast.walk(fn):
         if isinstance(n, ast.Call) and isinstance(n.func, ast.Attribute) and n.func.attr == 'isdisjoint' and n.args:
             a, b = _kind_side(n.func.value, env, items), _kind_side(n.args[0], env, items)
@@ -538,7 +555,7 @@ def _conflict(ctx, repo, ci):
         sites.append((f'{m.name}.{fname}', fn))
     need = {('Q', 'Q'), ('M', 'M'), ('C', 'M'), ('M', 'C')}
     for key, fn in sites:
-        pairs = _conflict_pairs(fn)
+        pairs = _conflict_pairs(fn, m)
         for p in sorted(need):
             ok = p in pairs
             ctx.ob('C05.e', f'{key}:tests:{p[0]}{p[1]}', ok,
